@@ -46,36 +46,53 @@ theorem accept_iff_wellformed (L : Lists) (ss : List Schedule) :
 example : validateSchedules tables ⟨[none], [none, some 2], [], [some 3]⟩
     [.items [Item.mk "state" 0, Item.mk "mprocess" 0, Item.mk "povm" 1]] = .ok () := by decide
 
-/-- **C20.b `reject_item_or_order`** (which of the two exceptions, and where): if a list of iterable schedules is
-rejected, the first schedule that is not well formed decides. If one of its items is malformed the result is the
-schedule-item error carrying that schedule's position and the position `j` of its *first* malformed item (all
-items before `j` are well-formed pairs); otherwise it is the schedule-order error for that schedule. -/
+/-- **C20.b `reject_item_or_order`** (which of the two exceptions, and where; no restriction on the schedules): if a
+schedule list is rejected, the result is always the schedule-item or the schedule-order error, decided by the first
+schedule that is not well formed: a schedule that cannot be iterated (`None`, an int …) gives the schedule-item error
+(no item position); if one of its items is malformed the schedule-item error carries that schedule's position and the
+position `j` of its *first* malformed item (all items before `j` are well-formed pairs); otherwise it is the
+schedule-order error for that schedule. -/
 theorem reject_item_or_order (L : Lists) (ss : List Schedule) (e : Err)
-    (hiter : ∀ s ∈ ss, s ≠ .nonIterable) (h : validateSchedules tables L ss = .error e) :
-    ∃ pre its post, ss = pre ++ .items its :: post ∧ (∀ x ∈ pre, WellFormed L x) ∧
-      ¬ WellFormed L (.items its) ∧
-      ((∃ j ex pre' it post', e = .item pre.length j ex ∧ its = pre' ++ it :: post' ∧ j = pre'.length ∧
-          validateItem tables L it = .error ex ∧ ∀ x ∈ pre', ∃ p, x = Item.mk p.1 p.2 ∧ InRange L p) ∨
-       (∃ (ps : List (String × Int)) (r : OrderErr), e = .order pre.length r ∧ its = ps.map (fun p => Item.mk p.1 p.2) ∧
-          (∀ p ∈ ps, InRange L p) ∧ ¬ OrderRule (ps.map (·.1)))) := by
-  obtain ⟨pre, its, post, h1, h2, h3, h4⟩ :=
-    validateSchedulesAux_error tables tables_minLen tables_kindsAreKeys L ss 0 none e hiter h
-  refine ⟨pre, its, post, h1, fun x hx => (schedOk_iff_wellFormed L x).1 (h2 x hx),
+    (h : validateSchedules tables L ss = .error e) :
+    ∃ pre s post, ss = pre ++ s :: post ∧ (∀ x ∈ pre, WellFormed L x) ∧ ¬ WellFormed L s ∧
+      ((s = .nonIterable ∧ e = .itemNoPos pre.length) ∨
+       (∃ its j ex pre' it post', s = .items its ∧ e = .item pre.length j ex ∧ its = pre' ++ it :: post' ∧
+          j = pre'.length ∧ validateItem tables L it = .error ex ∧
+          ∀ x ∈ pre', ∃ p, x = Item.mk p.1 p.2 ∧ InRange L p) ∨
+       (∃ (its : List Item) (ps : List (String × Int)) (r : OrderErr), s = .items its ∧ e = .order pre.length r ∧
+          its = ps.map (fun p => Item.mk p.1 p.2) ∧ (∀ p ∈ ps, InRange L p) ∧ ¬ OrderRule (ps.map (·.1)))) := by
+  obtain ⟨pre, s, post, h1, h2, h3, h4⟩ :=
+    validateSchedulesAux_error tables tables_minLen tables_kindsAreKeys L ss 0 e h
+  refine ⟨pre, s, post, h1, fun x hx => (schedOk_iff_wellFormed L x).1 (h2 x hx),
     fun hw => h3 ((schedOk_iff_wellFormed L _).2 hw), ?_⟩
-  rcases h4 with ⟨j, ex, he, hj⟩ | ⟨names, r, he, hn, ho⟩
-  · left
+  rcases h4 with ⟨hs, he⟩ | ⟨its, j, ex, hs, he, hj⟩ | ⟨its, names, r, hs, he, hn, ho⟩
+  · left; exact ⟨hs, by simpa using he⟩
+  · right; left
     obtain ⟨pre', it, post', g1, g2, g3, g4⟩ := validateItems_error tables L its 0 j ex hj
-    refine ⟨j, ex, pre', it, post', by simpa using he, g1, by simpa using g2, g3, ?_⟩
+    refine ⟨its, j, ex, pre', it, post', hs, by simpa using he, g1, by simpa using g2, g3, ?_⟩
     intro x hx
     obtain ⟨n, hn⟩ := g4 x hx
     obtain ⟨i, hi, hp⟩ := (validateItem_ok_iff tables L x n).1 hn
     exact ⟨(n, i), hi, (pairOk_iff_inRange L (n, i)).1 hp⟩
-  · right
+  · right; right
     obtain ⟨ps, g1, g2, g3⟩ := (validateItems_ok_iff tables L its 0 names).1 hn
-    refine ⟨ps, r, by simpa using he, g1, fun p hp => (pairOk_iff_inRange L p).1 (g3 p hp), ?_⟩
+    refine ⟨its, ps, r, hs, by simpa using he, g1, fun p hp => (pairOk_iff_inRange L p).1 (g3 p hp), ?_⟩
     intro hr
     have := (validateOrder_ok_iff tables tables_minLen names).2 (by rw [g2]; exact (orderOk_iff_orderRule _).2 hr)
     rw [ho] at this; cases this
+
+/-- every rejection is one of the two schedule errors (corollary; was violated before fix d4e3672, D13) -/
+theorem reject_is_schedule_error (L : Lists) (ss : List Schedule) (e : Err)
+    (h : validateSchedules tables L ss = .error e) :
+    (∃ i, e = .itemNoPos i) ∨ (∃ i j ex, e = .item i j ex) ∨ (∃ i r, e = .order i r) := by
+  obtain ⟨pre, s, post, _, _, _, h4⟩ := reject_item_or_order L ss e h
+  rcases h4 with ⟨_, he⟩ | ⟨_, j, ex, _, _, _, _, he, _⟩ | ⟨_, _, r, _, he, _⟩
+  · exact Or.inl ⟨_, he⟩
+  · exact Or.inr (Or.inl ⟨_, j, ex, he⟩)
+  · exact Or.inr (Or.inr ⟨_, r, he⟩)
+
+example : validateSchedules tables ⟨[none], [none], [], []⟩
+    [.items [Item.mk "state" 0, Item.mk "povm" 0], .nonIterable] = .error (.itemNoPos 1) := by decide
 
 /-- the malformed item shapes and the Python exception `_validate_schedule_item` raises for each
 (all three are converted to the schedule-item error) -/
@@ -117,19 +134,6 @@ theorem item_exceptions (L : Lists) :
 
 /-- bool indices are not ints: `("povm", True)` is a malformed item although `True == 1` -/
 example : validateItem tables ⟨[none], [none, none], [], []⟩ (.tuple [.str "povm", .bool true]) = .error .typeError := rfl
-
-/-- **known defect D13, negation witness**: a non-iterable schedule (e.g. `None`) is *not* rejected with the
-schedule-item or schedule-order error: the handler formats the loop variable `j`, which is unbound. -/
-theorem reject_item_or_order_nonIterable_fails :
-    ¬ (∀ (L : Lists) (ss : List Schedule) (e : Err), validateSchedules tables L ss = .error e →
-        (∃ i j ex, e = .item i j ex) ∨ (∃ i r, e = .order i r)) := by
-  intro h
-  have := h ⟨[none], [none], [], []⟩ [.nonIterable] .unbound (by decide)
-  rcases this with ⟨_, _, _, h⟩ | ⟨_, _, h⟩ <;> cases h
-
-/-- … and the stale `j` of an earlier schedule is reported when there is one -/
-example : validateSchedules tables ⟨[none], [none], [], []⟩
-    [.items [Item.mk "state" 0, Item.mk "povm" 0], .nonIterable] = .error (.item 1 1 .typeError) := by decide
 
 /-! ## setters -/
 
@@ -198,10 +202,10 @@ example : (runOps tables ⟨⟨[none], [none], [], []⟩, [.items [Item.mk "stat
 
 /-! ## tomography classes -/
 theorem specs_eq :
-    qstSpec = ⟨[(0, "state"), (1, "povm")], 0, [1, 2, 0, 0]⟩ ∧
-    povmtSpec = ⟨[(0, "state"), (1, "povm")], 1, [2, 1, 0, 0]⟩ ∧
-    qptSpec = ⟨[(0, "state"), (1, "gate"), (2, "povm")], 1, [2, 2, 1, 0]⟩ ∧
-    qmptSpec = ⟨[(0, "state"), (1, "mprocess"), (2, "povm")], 1, [2, 2, 0, 1]⟩ := ⟨rfl, rfl, rfl, rfl⟩
+    qstSpec = ⟨[(0, "state"), (1, "povm")], 0, [1, 2, 0, 0], none⟩ ∧
+    povmtSpec = ⟨[(0, "state"), (1, "povm")], 1, [2, 1, 0, 0], none⟩ ∧
+    qptSpec = ⟨[(0, "state"), (1, "gate"), (2, "povm")], 1, [2, 2, 1, 0], none⟩ ∧
+    qmptSpec = ⟨[(0, "state"), (1, "mprocess"), (2, "povm")], 1, [2, 2, 0, 1], some 3⟩ := ⟨rfl, rfl, rfl, rfl⟩
 
 /-- **C20.e `qst_accept_iff_shape`** — `StandardQst(povms, schedules=ss)` gets through its schedule handling exactly
 when every schedule is `[("state", 0), ("povm", j)]` with `j < len(povms)`. -/
@@ -248,54 +252,27 @@ theorem qpt_accept_iff_shape (nS nP : Nat) (ss : List Schedule) :
     obtain ⟨i, j, hi, hj, rfl⟩ := h s hs
     exact ⟨[("state", (i : Int)), ("gate", 0), ("povm", (j : Int))], rfl, (qpt_one nS nP _).2 ⟨i, j, hi, hj, rfl⟩⟩
 
-/-- **C20.e `qmpt_accept_iff`** (the code as it is) — `StandardQmpt` accepts exactly
-`[("state", i), ("mprocess", 0), ("povm", j)]` followed by *any number* of `("mprocess", 0)` items: the positional
-tests look at items 0..2 only and `Experiment` allows measurement processes after the POVM. -/
-theorem qmpt_accept_iff (nS nP : Nat) (ss : List Schedule) :
+/-- **C20.e `qmpt_accept_iff_shape`** — `StandardQmpt`: exactly `[("state", i), ("mprocess", 0), ("povm", j)]`
+(the length test added by fix d963183 excludes the trailing `("mprocess", 0)` items of D14). -/
+theorem qmpt_accept_iff_shape (nS nP : Nat) (ss : List Schedule) :
     tomoCtor tables .qmpt nS nP (.list ss) = .ok ss ↔
-      ∀ s ∈ ss, ∃ i j k : Nat, i < nS ∧ j < nP ∧
-        s = .items ([Item.mk "state" i, Item.mk "mprocess" 0, Item.mk "povm" j] ++
-              List.replicate k (Item.mk "mprocess" 0)) := by
+      ∀ s ∈ ss, ∃ i j : Nat, i < nS ∧ j < nP ∧
+        s = .items [Item.mk "state" i, Item.mk "mprocess" 0, Item.mk "povm" j] := by
   rw [tomoCtor_ok_iff']
   constructor
   · intro h s hs
     obtain ⟨ps, rfl, h2⟩ := h s hs
-    obtain ⟨i, j, k, hi, hj, rfl⟩ := (qmpt_one nS nP ps).1 h2
-    exact ⟨i, j, k, hi, hj, by simp [toSched, Item.mk]⟩
-  · intro h s hs
-    obtain ⟨i, j, k, hi, hj, rfl⟩ := h s hs
-    exact ⟨[("state", (i : Int)), ("mprocess", 0), ("povm", (j : Int))] ++ List.replicate k ("mprocess", 0),
-      by simp [toSched, Item.mk], (qmpt_one nS nP _).2 ⟨i, j, k, hi, hj, rfl⟩⟩
-
-/-- **`qmpt_accept_iff_shape_partial`** — for schedule lists whose schedules all have three items the class accepts
-exactly its own shape. Missing for the full clause: schedules with trailing `("mprocess", 0)` items are accepted
-too (known defect D14, witness below). -/
-theorem qmpt_accept_iff_shape_partial (nS nP : Nat) (ss : List Schedule)
-    (h3 : ∀ s ∈ ss, ∀ its, s = .items its → its.length = 3) :
-    tomoCtor tables .qmpt nS nP (.list ss) = .ok ss ↔
-      ∀ s ∈ ss, ∃ i j : Nat, i < nS ∧ j < nP ∧
-        s = .items [Item.mk "state" i, Item.mk "mprocess" 0, Item.mk "povm" j] := by
-  rw [qmpt_accept_iff]
-  constructor
-  · intro h s hs
-    obtain ⟨i, j, k, hi, hj, rfl⟩ := h s hs
-    have := h3 _ hs _ rfl
-    simp at this
-    subst this
+    obtain ⟨i, j, hi, hj, rfl⟩ := (qmpt_one nS nP ps).1 h2
     exact ⟨i, j, hi, hj, rfl⟩
   · intro h s hs
     obtain ⟨i, j, hi, hj, rfl⟩ := h s hs
-    exact ⟨i, j, 0, hi, hj, rfl⟩
+    exact ⟨[("state", (i : Int)), ("mprocess", 0), ("povm", (j : Int))], rfl, (qmpt_one nS nP _).2 ⟨i, j, hi, hj, rfl⟩⟩
 
-/-- **known defect D14, negation witness**: `StandardQmpt` accepts a schedule that is not of its shape. -/
-theorem qmpt_accept_iff_shape_fails :
-    ¬ (∀ (nS nP : Nat) (ss : List Schedule), tomoCtor tables .qmpt nS nP (.list ss) = .ok ss →
-        ∀ s ∈ ss, ∃ i j : Nat, s = .items [Item.mk "state" i, Item.mk "mprocess" 0, Item.mk "povm" j]) := by
-  intro h
-  let w : Schedule := .items [Item.mk "state" 0, Item.mk "mprocess" 0, Item.mk "povm" 0, Item.mk "mprocess" 0]
-  have hacc : tomoCtor tables .qmpt 1 1 (.list [w]) = .ok [w] := by decide
-  obtain ⟨i, j, hij⟩ := h 1 1 [w] hacc w (List.mem_singleton.2 rfl)
-  simp [w] at hij
+/-- the former D14 input is rejected with the class's ValueError; a two-item schedule no longer raises IndexError -/
+example : tomoCtor tables .qmpt 1 1 (.list [.items [Item.mk "state" 0, Item.mk "mprocess" 0, Item.mk "povm" 0,
+    Item.mk "mprocess" 0]]) = .error (.value 0) := by decide
+example : tomoCtor tables .qmpt 1 1 (.list [.items [Item.mk "state" 0, Item.mk "mprocess" 0]]) = .error (.value 0) := by
+  decide
 
 /-- the `"all"` expansions are accepted by their own class, for every number of states and POVMs -/
 theorem all_accepted (c : Cls) (nS nP : Nat) :
@@ -322,11 +299,11 @@ theorem all_accepted (c : Cls) (nS nP : Nat) :
     obtain ⟨i, hi, j, hj, rfl⟩ := hs
     exact ⟨i, j, hi, hj, rfl⟩
   | qmpt =>
-    refine (qmpt_accept_iff nS nP _).2 ?_
+    refine (qmpt_accept_iff_shape nS nP _).2 ?_
     intro s hs
     simp only [allSchedules, List.mem_flatMap, List.mem_map, List.mem_range] at hs
     obtain ⟨i, hi, j, hj, rfl⟩ := hs
-    exact ⟨i, j, 0, hi, hj, rfl⟩
+    exact ⟨i, j, hi, hj, rfl⟩
 
 /-- unsupported strings are rejected before anything else -/
 theorem unsupported_string_rejected (c : Cls) (nS nP : Nat) (s : String) (h : s ≠ "all") :
